@@ -714,7 +714,11 @@ class AggregateBase(UnitsManaged, Saveable, OpenSystem):
         if (exindx < 0):
             return 0.0
 
-        eldip = self.get_dipole(exindx, 0, 1)
+        # the dipole moment of the transition between the two levels of the
+        # molecule which changes its state (0 and 1 for two-level molecules)
+        n1 = state1.elstate.elsignature[exindx]
+        n2 = state2.elstate.elsignature[exindx]
+        eldip = self.get_dipole(exindx, min(n1, n2), max(n1, n2))
 
         # Franck-Condon factor between the two states
         fcfac = self.fc_factor(state1,state2)
